@@ -122,6 +122,29 @@ def cases(tier, rng, schema, feats):
                         if any(k == kk for kk, _ in host.pairs):
                             continue
                         pair("dec2", bytes([cmd]).hex(), tree, mutate.insert_pair(tree, hp, pos, k, v))
+    # SEVERAL unknown members in the same host (two and three, adjacent and apart, the same unknown key twice is a different matter and
+    # not sent): a duplicate check that also covers ignored members would reject the second one
+    for cmd, (variant, t) in REQUESTS.items():
+        if cmd == 0x41:
+            continue
+        tree = g.named_wire(t, present="all")
+        for hp in host_paths(schema, t, tree):
+            host = mutate.get(tree, hp)
+            uv = unknown_values()
+            for a in range(len(host.pairs) + 1):
+                for b in (a, len(host.pairs)):
+                    (k1, v1), (k2, v2), (k3, v3) = uv[0], uv[1], uv[2]
+                    t2 = mutate.insert_pair(mutate.insert_pair(tree, hp, b, k2, v2), hp, a, k1, v1)
+                    pair("dec2", bytes([cmd]).hex(), tree, t2)
+                    t3 = mutate.insert_pair(t2, hp, 0, k3, v3)
+                    pair("dec2", bytes([cmd]).hex(), tree, t3)
+    for t in HOSTS:
+        tree = g.named_wire(t, present="all")
+        uv = unknown_values()
+        for a in range(len(tree.pairs) + 1):
+            t2 = mutate.insert_pair(mutate.insert_pair(tree, (), len(tree.pairs), uv[1][0], uv[1][1]), (), a, uv[0][0], uv[0][1])
+            pair("decty", t, tree, t2)
+            pair("decty", t, tree, mutate.insert_pair(t2, (), 0, uv[2][0], uv[2][1]))
     for t in HOSTS:
         for rep in range(2 if tier == "quick" else 6):
             tree = g.named_wire(t, present="all" if rep == 0 else None)
